@@ -1,9 +1,12 @@
 #!/usr/bin/env python3
 """Run the pinned baseline suite (guard off) and compare passes with /root/.vp/BASELINE.json stable_pass."""
 import json, subprocess, sys, xml.etree.ElementTree as ET, os, tempfile
+repo = sys.argv[1] if len(sys.argv) > 1 else "/repo"
 out = tempfile.mktemp(suffix=".xml", dir="/var/tmp")
 env = dict(os.environ); env.pop("DATA_ALGEBRA_VERIF", None)
-subprocess.run(f"cd /repo && /venv/bin/python -m pytest -ra -q -p no:cacheprovider --timeout=900 --continue-on-collection-errors --junitxml={out}",
+if repo != "/repo":
+    env["PYTHONPATH"] = repo
+subprocess.run(f"cd {repo} && /venv/bin/python -m pytest -ra -q -p no:cacheprovider --timeout=900 --continue-on-collection-errors --junitxml={out}",
                shell=True, env=env, stdout=subprocess.DEVNULL, stderr=subprocess.DEVNULL)
 passed = set()
 for tc in ET.parse(out).getroot().iter("testcase"):
@@ -11,5 +14,5 @@ for tc in ET.parse(out).getroot().iter("testcase"):
         passed.add(f"{tc.get('classname')}::{tc.get('name')}")
 os.remove(out)
 base = set(json.load(open("/root/.vp/BASELINE.json"))["stable_pass"])
-print("passed", len(passed), "baseline", len(base), "missing", sorted(base - passed)[:10], "extra", len(passed - base))
+print(repo, "passed", len(passed), "baseline", len(base), "missing", sorted(base - passed)[:10], "extra", len(passed - base))
 sys.exit(0 if base <= passed else 1)
